@@ -10,7 +10,7 @@ C04-INDEX  indexed reads/writes of container storage in the generic accessors ar
 from jv import flow
 from jv.facts import Program, AnalysisBroken
 from jv.callgraph import CallGraph
-from jv.util import is_ref, is_mem, strip_casts
+from jv.util import wraps, is_ref, is_mem, strip_casts
 from rules.arity import run_arity
 
 EXPLANATION = (
@@ -246,7 +246,10 @@ def _tombstone_rule(chk, prog):
             continue
         stores = [x for x in fn.nodes if x.k == "asg" and x.op == "=" and x.kids[0].k == "mem" and x.kids[0].rec == "JanetKV"]
         for x in stores:
-            names = strip_casts(x.kids[1]).macro_names()
+            names = set(strip_casts(x.kids[1]).macro_names())
+            for wn in ("janet_wrap_nil", "janet_wrap_false"):
+                if wraps(x.kids[1], wn):
+                    names.add(wn)
             fld = x.kids[0].field
             if fld == "value" and "janet_wrap_nil" in names:
                 n += 1
@@ -262,7 +265,7 @@ def _tombstone_rule(chk, prog):
                 chk.instance(rule)
                 base = strip_casts(x.kids[0].kids[0]).text()
                 paired = any(y.kids[0].field == "value" and strip_casts(y.kids[0].kids[0]).text() == base
-                             and "janet_wrap_false" in strip_casts(y.kids[1]).macro_names() for y in stores)
+                             and wraps(y.kids[1], "janet_wrap_false") for y in stores)
                 if paired:
                     chk.ok(rule, "%s: removal writes the tombstone (nil, false)" % fn.name)
                 else:
@@ -296,7 +299,7 @@ def _setcount_rule(chk, prog):
         for n in fn.nodes:
             if n.k == "for" and n.kids[1] is not None:
                 stores = [x for x in n.kids[3].walk() if x.k == "asg"]
-                if len(stores) == 1 and stores[0].kids[0].k == "sub" and "janet_wrap_nil" in strip_casts(stores[0].kids[1]).macro_names():
+                if len(stores) == 1 and stores[0].kids[0].k == "sub" and wraps(stores[0].kids[1], "janet_wrap_nil"):
                     fill_nodes.add(n.kids[1].id)
             if n.k == "call" and n.callee == "memset" and any(x.k == "mem" and x.field == "data" for x in n.args[0].walk()):
                 fill_nodes.add(n.id)
